@@ -16,8 +16,10 @@ from beartype.roar import BeartypeDecorHintPepUnsupportedException  # noqa: E402
 RULE = ('seeded recursive sampler over hint grammar G (vlib/hints.py) x configurations x conforming '
         'objects built by gen_in and confirmed conforming by the independent full() model x sampler '
         'draws (all residues of the lcm of sequence lengths, 32-bit edge values, random 32-bit values) x '
-        'six entry points; a case is distinct by (hint source, configuration); non-trivial = hint has '
-        'at least one child or is a literal/type/named form (not a bare class)')
+        'six entry points; plus, for a fifth of the cases, the same hint text wrapped around a relative reference '
+        "('Node') asked from 2-3 successive scopes that each define their own Node (statement checkers and a "
+        'decorated function, each with the conforming object of its own scope); a case is distinct by (hint source, '
+        'configuration); non-trivial = hint has at least one child or is a literal/type/named form (not a bare class)')
 
 DIRECTED = [
     # (hint src, object src): hostile conforming objects picked by hand
